@@ -1407,8 +1407,11 @@ fn is_same_prop_name(a: &PropName, b: &PropName) -> bool {
         match name {
             PropName::Ident(IdentName { sym, .. }) => Some(Cow::Borrowed(&**sym)),
             PropName::Str(Str { value, .. }) => Some(Cow::Borrowed(&**value)),
-            // (the keys a number can be spelled as here print the way JavaScript prints them)
-            PropName::Num(Number { value, .. }) if value.is_finite() && value.abs() < 1e21 => {
+            // (in this range a number prints the way JavaScript prints it: no exponent)
+            PropName::Num(Number { value, .. }) if *value == 0.0 => Some(Cow::Borrowed("0")),
+            PropName::Num(Number { value, .. })
+                if (1e-6..1e21).contains(&value.abs()) =>
+            {
                 Some(Cow::Owned(value.to_string()))
             }
             _ => None,
